@@ -43,6 +43,41 @@ if kind in ('seqlock_ok','seqlock_bad'):
     }
   static fixed_t sqrt_aprox_impl(fixed_t value) noexcept
     {''' % recheck,1)
+if kind in ('clock_bad','clock_ok'):
+    s=s.replace('#include <algorithm>','#include <algorithm>\n#include <chrono>\n',1)
+    if kind=='clock_bad':
+        body='''  static fixed_t sqrt_aprox_impl(fixed_t value) noexcept;
+  // start-up self-benchmark: time the table path against a "refined" path once, then always use the faster one
+  static int sqrt_aprox_choice = 0;     // 0 = undecided, 1 = table, 2 = refined (one ulp more accurate on some inputs)
+  fixed_t sqrt_aprox(fixed_t value) noexcept
+    {
+    if( sqrt_aprox_choice == 0 )
+      {
+      using clk = std::chrono::steady_clock;
+      auto t0 = clk::now(); fixed_t a = sqrt_aprox_impl(value); auto t1 = clk::now(); fixed_t b = sqrt_aprox_impl(value); b.v |= 1; auto t2 = clk::now();
+      (void)a; (void)b;
+      // "slow start" guard: if the first measurement took over a millisecond something else was going on; prefer the refined path then
+      sqrt_aprox_choice = ( (t1 - t0) > std::chrono::milliseconds(1) || (t2 - t1) < (t1 - t0) ) ? 2 : 1;
+      }
+    fixed_t r = sqrt_aprox_impl(value);
+    if( sqrt_aprox_choice == 2 && r.v > 0 ) r.v |= 1;
+    return r;
+    }
+  static fixed_t sqrt_aprox_impl(fixed_t value) noexcept
+    {'''
+    else:
+        body='''  static fixed_t sqrt_aprox_impl(fixed_t value) noexcept;
+  static long long sqrt_aprox_busy_ns = 0;      // statistics only
+  fixed_t sqrt_aprox(fixed_t value) noexcept
+    {
+    auto t0 = std::chrono::steady_clock::now();
+    fixed_t r = sqrt_aprox_impl(value);
+    sqrt_aprox_busy_ns += std::chrono::duration_cast<std::chrono::nanoseconds>(std::chrono::steady_clock::now() - t0).count();
+    return r;
+    }
+  static fixed_t sqrt_aprox_impl(fixed_t value) noexcept
+    {'''
+    s=s.replace('  fixed_t sqrt_aprox(fixed_t value) noexcept\n    {', body, 1)
 if kind in ('alloc_bad','alloc_ok'):
     s=s.replace('#include <algorithm>','#include <algorithm>\n#include <new>\n',1)
     fallback = 'return value;' if kind=='alloc_bad' else 'return as_fixed( ( static_cast<fixed_internal>( square_root_tab(static_cast<uint8_t>(index)) ) << (cl >> 1) ) >> 4 );'
